@@ -86,6 +86,12 @@ fn require_auth(auth: Option<&dyn S3Auth>) -> S3Result<&dyn S3Auth> {
 
 impl SignatureContext<'_> {
     pub async fn check(&mut self) -> S3Result<Option<CredentialsExt>> {
+        // A repeated Authorization header presents a signature that cannot be attributed to one signer.
+        // It must not be treated as an anonymous request.
+        if self.hs.get_all(crate::header::AUTHORIZATION).nth(1).is_some() {
+            return Err(invalid_request!("multiple authorization headers"));
+        }
+
         if let Some(result) = self.v2_check().await {
             debug!("checked signature v2");
             return Ok(Some(result?));
